@@ -437,6 +437,33 @@ def check_spelling(expr, kind, payload, ci, want_override=None):
     return problems, want, negzero
 
 
+PAIRS = [("fp.hexfloat('0x0p0')", '-0.0'), ('-0.0', "fp.hexfloat('0x0p0')"), ('fp.rational(0, 3)', '-0.0'), ("fp.hexfloat('-0x0p0')", 'fp.digits(0, 2, 2)'), ('-0.0', 'fp.rational(0, 7)'),
+         ('0.0', '-0.0'), ('-0.0', '0.0'), ("fp.hexfloat('-0x0.0p3')", "fp.hexfloat('0x0.0p3')"), ('fp.digits(0, 0, 2)', "fp.hexfloat('-0x0p0')"), ('-0', 'fp.rational(0, 2)')]
+
+
+def check_pair(k):
+    """two zero literals of opposite sign in ONE function keep their own signs (a literal is not confused with an equal-valued one)"""
+    import fpy2 as fp
+    from fpy2 import Float
+    from . import progs
+    a, b = PAIRS[k]
+    src = '@fp.fpy\ndef pair():\n    u = %s\n    v = %s\n    return (u, v)\n# pair %d\n' % (a, b, k)
+    g = progs.load(src)
+    problems = []
+    for label, call in (('REAL', lambda: g['pair'](ctx=fp.REAL)), ('no context', lambda: g['pair']())):
+        try:
+            r = call()
+        except Exception as ex:  # noqa
+            problems.append('%s: (%s, %s) raised %r' % (label, a, b, ex)); continue
+        for expr, v in zip((a, b), r):
+            neg = expr.startswith('-') or "'-" in expr
+            s = (v.s if isinstance(v, Float) else str(v).startswith('-')) if isinstance(v, (Float, float)) else False
+            z = (v.as_rational() == 0) if isinstance(v, Float) else v == 0
+            if not z or bool(s) != neg:
+                problems.append('%s: in (%s, %s) the literal %s evaluated to %s%s' % (label, a, b, expr, '-' if s else '+', '0' if z else 'nonzero'))
+    return problems
+
+
 def run_spelling(task):
     import random
     rng = random.Random(task['seed'])
@@ -454,6 +481,12 @@ def run_spelling(task):
             todo.append((sp, 'poszero', sp, i % len(SP_CTX)))
     for _ in range(task['count']):
         todo.append(gen_spelling(rng) + (rng.randrange(len(SP_CTX)),))
+    if task.get('fixed'):
+        for k in range(len(PAIRS)):
+            problems = check_pair(k)
+            n += 1
+            if problems:
+                cex.append({'case': {'task': {'kind': 'spelling'}, 'inputs': {'expr': 'pair', 'kind': 'pair', 'payload': k, 'ctx': 0}, 'info': problems[0][:200]}})
     for expr, kind, payload, ci in todo:
         problems, want, negzero = check_spelling(expr, kind, payload, ci)
         n += 1
